@@ -75,7 +75,9 @@ func HarnessC17Near(wd int) {
 
 func verifC17Name(name []byte) {
 	L := len(name)
-	n := verifrt.Int("nargs", 0, 6)
+	// the argument count is arbitrary up to 70000 (a request of that many one-byte arguments is well inside the
+	// 6 MiB size limit): small counts, counts around 256 and 65536, anything
+	n := verifrt.Int("nargs", 0, 70000)
 	in := append([]byte{}, name...)
 	got := Transform2Type(in, n)
 
@@ -98,10 +100,15 @@ func verifC17Name(name []byte) {
 		}
 		member = verifrt.Or(member, m)
 		aok := false
-		for k := 0; k <= 6; k++ {
-			if VerifArityOK(cls, k) {
-				aok = verifrt.Or(aok, n == k)
-			}
+		switch cls {
+		case 'z':
+			aok = n == 0
+		case '1', '2', '3', '4':
+			aok = n == int(cls-'0')
+		case 'n':
+			aok = n >= 1
+		case 'e':
+			aok = verifrt.And(n >= 2, n%2 == 0)
 		}
 		arity = verifrt.Or(arity, verifrt.And(m, aok))
 	}
